@@ -4,6 +4,90 @@ from .lie_common import *   # noqa
 EXP_TARGETS = [(OP, 'so3_Exp.forward'), (OP, 'so3_Jl'), (OP, 'calcQ'), (OP, 'rxso3_Ws')]
 
 
+@guarded
+def rule_wsign(repo, tier):
+    """Rotation angles beyond pi are in the stated range, and there the real part cos(theta/2) of the unit quaternion is NEGATIVE.  By interval
+    analysis of the expression stored as the real part in the closed-form (large-angle) branch of so3_Exp.forward: its range must reach below
+    zero.  sqrt(1 - sin^2), abs(cos), a norm ... are all >= 0 and give the quaternion of another rotation for theta in (pi, 3 pi)."""
+    import math
+    res = RuleResult('C01.WSIGN', 'so3_Exp.forward: the real quaternion part of the closed-form branch can take negative values (interval analysis): '
+                     'angles in (pi, 3 pi) need cos(theta/2) < 0', floor=1)
+    f = repo.func(OP, 'so3_Exp.forward')
+    single = {}
+    for n in ast.walk(f.node):
+        if isinstance(n, ast.Assign) and len(n.targets) == 1 and isinstance(n.targets[0], ast.Name):
+            single.setdefault(n.targets[0].id, []).append(n.value)
+
+    def iv(e, depth=0):
+        if depth > 12:
+            return None
+        if isinstance(e, ast.Constant) and isinstance(e.value, (int, float)):
+            return (float(e.value), float(e.value))
+        if isinstance(e, ast.Name):
+            vs = single.get(e.id, [])
+            return iv(vs[0], depth + 1) if len(vs) == 1 else None
+        if isinstance(e, ast.Subscript):
+            return iv(e.value, depth + 1)
+        if isinstance(e, ast.UnaryOp) and isinstance(e.op, ast.USub):
+            i = iv(e.operand, depth + 1)
+            return None if i is None else (-i[1], -i[0])
+        if isinstance(e, ast.Call):
+            name = (dotted(e.func) or (e.func.attr if isinstance(e.func, ast.Attribute) else '')).split('.')[-1]
+            args = list(e.args)
+            if isinstance(e.func, ast.Attribute) and not (dotted(e.func) or '').startswith(('torch.', 'math.')):
+                args = [e.func.value] + args
+            if name in ('cos', 'sin'):
+                return (-1.0, 1.0)
+            if name in ('sqrt', 'abs', 'norm', 'square', 'exp', 'cosh'):
+                return (0.0, float('inf'))
+            if name in ('clone', 'clamp') and args:
+                return iv(args[0], depth + 1)
+            return None
+        if isinstance(e, ast.BinOp):
+            a, b = iv(e.left, depth + 1), iv(e.right, depth + 1)
+            if isinstance(e.op, ast.Mult) and dump(e.left) == dump(e.right):
+                return (0.0, float('inf'))
+            if isinstance(e.op, ast.Pow) and isinstance(e.right, ast.Constant) and e.right.value in (2, 4, 0.5):
+                return (0.0, float('inf'))
+            if a is None or b is None:
+                return None
+            if isinstance(e.op, ast.Add):
+                return (a[0] + b[0], a[1] + b[1])
+            if isinstance(e.op, ast.Sub):
+                return (a[0] - b[1], a[1] - b[0])
+            if isinstance(e.op, ast.Mult):
+                ps = [x * y for x in a for y in b if not (math.isinf(x) and y == 0) and not (math.isinf(y) and x == 0)]
+                return (min(ps), max(ps)) if ps else None
+        return None
+    rets = returns_of(f.node)
+    if len(rets) != 1:
+        raise AnalysisError('C01.WSIGN: so3_Exp.forward has %d returns' % len(rets))
+    cat = rets[0].value
+    parts = cat.args[0].elts if isinstance(cat, ast.Call) and cat.args and isinstance(cat.args[0], (ast.List, ast.Tuple)) else None
+    if not parts or not isinstance(parts[-1], ast.Name):
+        raise AnalysisError('C01.WSIGN: the real part of the quaternion returned by so3_Exp.forward was not recognised')
+    real = parts[-1].id
+    n = 0
+    for st in ast.walk(f.node):
+        if isinstance(st, ast.Assign) and len(st.targets) == 1 and isinstance(st.targets[0], ast.Subscript) and dotted(st.targets[0].value) == real:
+            m = st.targets[0].slice
+            if isinstance(m, ast.UnaryOp):       # the small-angle branch (~idx): a truncated series around 1, positive there
+                continue
+            n += 1
+            r = iv(st.value)
+            ok = r is None or r[0] < 0
+            res.inst({'function': f.fq, 'real part (closed form)': src(st.value)[:60], 'range': r, 'can be negative': ok}, src(st.value))
+            if r is None:
+                res.unresolved += 1
+            elif not ok:
+                res.add(Finding('C01.WSIGN', f, 'the real part `%s` of the closed-form branch ranges over [%g, %g]: it is never negative, so for rotation '
+                                'angles in (pi, 3 pi) the returned quaternion has the wrong sign relation between its real and imaginary parts - another '
+                                'rotation' % (src(st.value)[:60], r[0], r[1]), node=st))
+    if n == 0:
+        raise AnalysisError('C01.WSIGN: no closed-form assignment to the real part found')
+    return res
+
+
 def _rules_core(repo, tier):
     out = rule_masks(repo, 'C01.MP', 'C01.GD', EXP_TARGETS, floor=10)
     out.append(rule_layout(repo, 'C01.LT', [
@@ -19,6 +103,7 @@ def _rules_core(repo, tier):
             if not any(isinstance(n, ast.Raise) for n in ast.walk(f.node)):
                 d.add(Finding('C01.DT', f, 'group type %sType defines an Exp that does not raise' % G, construct='group Exp'))
     out.append(d)
+    out.append(rule_wsign(repo, tier))
     out.append(rule_dtype(repo, 'C01.DTYPE', EXP_TARGETS + [(OP, 'se3_Exp.forward'), (OP, 'sim3_Exp.forward'), (OP, 'rxso3_Exp.forward')], floor=7))
     return out
 
